@@ -50,7 +50,7 @@ Init ==
   /\ genRank = 0
   /\ \E nff \in BOOLEAN, xf \in {""} \cup Files, dl \in BOOLEAN :     \* -rapid.nofailfile; -rapid.failfile naming one of the files; a test deadline
        /\ pc = "list"
-       /\ cfg = [checks |-> Checks, base |-> <<0, 0, 0, 1>>, nofailfile |-> nff, failfile |-> xf, expectFF |-> Files, deadline |-> dl]
+       /\ cfg = [checks |-> Checks, base |-> <<0, 0, 0, 1>>, nofailfile |-> nff, failfile |-> xf, expectFF |-> Files, mustFF |-> Files, deadline |-> dl]
   /\ ffq = <<>> /\ ff = "" /\ pend = "" /\ valid = 0 /\ invalid = 0 /\ seed = <<0, 0, 0, 1>> /\ cur = NoCur /\ flag = FALSE
   /\ e1 = NoErr /\ e2 = NoErr /\ buf = NoStream /\ best = NoStream /\ orig = NoStream /\ sErr = NoErr /\ cache = {}
   /\ shrinks = 0 /\ rep = NoRep /\ tbFailed = FALSE /\ tbFailNow = FALSE /\ viol = {}
